@@ -401,15 +401,22 @@ class ScenarioGen:
             self.feat("role." + role)
 
             def occs():
+                import copy as _copy
                 res, t = [], 1
                 for _ in range(r.randint(1, 4)):
+                    # an obstacle that stands still occupies the SAME region at several steps: the same shape object
+                    # or an equal copy of it may appear more than once in one occupancy set
+                    rep = r.random() if res else 1.0
+                    shp = res[-1].shape if rep < 0.15 else _copy.deepcopy(res[-1].shape) if rep < 0.3 else self.shape(False)
+                    if rep < 0.3:
+                        self.feat("occupancy.repeated-shape")
                     if self.cyc([False, True]):
                         w = r.randint(0, 2)
-                        res.append(Occupancy(Interval(t, t + max(w, 1) if t == 0 else t + w), self.shape(False)))
+                        res.append(Occupancy(Interval(t, t + max(w, 1) if t == 0 else t + w), shp))
                         t += w + 1
                         self.feat("occupancy.interval")
                     else:
-                        res.append(Occupancy(t, self.shape(False)))
+                        res.append(Occupancy(t, shp))
                         t += 1
                         self.feat("occupancy.exact")
                 return res
